@@ -45,7 +45,7 @@ BOUNDS
             2*parallel exceeded whenever leaves > 2*parallel); transform depth 0..3 (85 items > 16*2,
             16*3); multi_tan 1..6 inputs, both storage parities; multi_wcs 2 and 3 inputs; forced
             schedules on all four stages.  Serial run of every case as well.
-  thorough: ~1500 random visit shapes to depth 5, transform to depth 4 (341 items), more image
+  thorough: ~2500 random visit shapes to depth 5, transform to depth 4 (341 items), more image
             collections, forced schedules for each worker count.
   Watchdog: 60 s (quick) / 120 s (thorough) per run; normal runs take 1-3 s (multi_wcs 10-25 s).
 
@@ -505,8 +505,12 @@ def _run_multi_tan(case):
     sched, case_sched = case.get("sched"), None
     ref_case = dict(case)
     ref_case["sched"] = None
-    ref = _guarded(ref_case, ref_logdir, lambda: tile(os.path.join(base, "ref_%s" % case["id"]), _Log(ref_logdir), 1))
-    ref_big = _assemble(holder["pio"], holder["level"]) if ref["exception"] is None else None
+    if case.get("fail"):      # C19 runs: no reference needed
+        ref = {"events": [], "exception": None}
+        ref_big = None
+    else:
+        ref = _guarded(ref_case, ref_logdir, lambda: tile(os.path.join(base, "ref_%s" % case["id"]), _Log(ref_logdir), 1))
+        ref_big = _assemble(holder["pio"], holder["level"]) if ref["exception"] is None else None
     res = _guarded(case, logdir, lambda: tile(os.path.join(base, "out_%s" % case["id"]), _Log(logdir), case["parallel"], _fail_pos(case), case.get("delay")))
     res["ref_events"] = ref["events"]
     res["ref_exception"] = ref["exception"]
@@ -590,8 +594,12 @@ def _run_multi_wcs(case):
     ref_logdir = _logdir(case, "reflog")
     ref_case = dict(case)
     ref_case["sched"] = None
-    ref = _guarded(ref_case, ref_logdir, lambda: tile(os.path.join(base, "ref_%s" % case["id"]), _Log(ref_logdir), 1, False))
-    ref_big = _assemble(holder["pio"], holder["level"]) if ref["exception"] is None else None
+    if fail:                  # C19 runs: no reference needed
+        ref = {"events": [], "exception": None}
+        ref_big = None
+    else:
+        ref = _guarded(ref_case, ref_logdir, lambda: tile(os.path.join(base, "ref_%s" % case["id"]), _Log(ref_logdir), 1, False))
+        ref_big = _assemble(holder["pio"], holder["level"]) if ref["exception"] is None else None
     res = _guarded(case, logdir, lambda: tile(os.path.join(base, "out_%s" % case["id"]), _Log(logdir), case["parallel"], True))
     res["ref_events"] = ref["events"]
     res["ref_exception"] = ref["exception"]
@@ -788,7 +796,7 @@ def build_cases(rng, thorough):
         cases.append(_visit_case("g", 2, [], apex, par(), dl()))
     bounds.append("visit_leaves, workers {2,3,16} (queue capacities 4, 6, 32): all 16 accept-sets at depth 1; depth 0; apex at the pyramid "
                   "depth; full depth-4 pyramids (256 leaves); corner shapes depth 2..%d; every apex of the generic depth-2 pyramid" % cmax)
-    n_rand = 1500 if thorough else 70
+    n_rand = 2500 if thorough else 70
     dch = [2, 3, 3, 4, 4, 5] if thorough else [2, 3, 3, 4]
     for _ in range(n_rand):
         depth = rng.choice(dch)
